@@ -422,6 +422,8 @@ def history_definite(model: Model, sw: "SharedWrite") -> bool:
             continue
         if mtf and base in ("method:insert", "method:pop"):
             continue
+        if base == "method:extend" and placeholder_growth(sw):
+            continue
         if base in ("subscript-aug", "aug-assign") or base.startswith("attr-aug:"):
             return True
         if base in ("method:sort", "method:reverse", "method:insert", "method:extend"):
@@ -436,6 +438,30 @@ def history_definite(model: Model, sw: "SharedWrite") -> bool:
     return False
 
 
+def placeholder_growth(sw: "SharedWrite") -> bool:
+    """every extend() of this write only adds placeholders:  X.extend([None] * k)  (the list form of `while ...: X.append(None)`)"""
+    ext = [t for kk, _l, t in sw.records if kk.split(" (")[0] == "method:extend"]
+    return bool(ext) and all(re.search(r"\.extend\(\[None\]\*", t.replace(" ", "")) for t in ext)
+
+
+def tolerant_eviction(sw: "SharedWrite", base: str) -> bool:
+    """dict eviction that cannot fail whatever other threads did in between:  d.clear()  and  d.pop(key, default).
+    Readers of an evicting memo that use a single  d.get(key)  see a miss at worst; whether they do is left undecided."""
+    if base == "method:clear":
+        return True
+    if base == "method:pop":
+        texts = [t for kk, _l, t in sw.records if kk.split(" (")[0] == "method:pop"]
+        ok = bool(texts)
+        for t in texts:
+            try:
+                call = ast.parse(t.strip(), mode="eval").body
+            except SyntaxError:
+                return False
+            ok = ok and isinstance(call, ast.Call) and len(call.args) == 2
+        return ok
+    return False
+
+
 def write_is_definite(model: Model, sw: "SharedWrite", threads: bool = True) -> bool:
     """True when the write is data modification (scratch store, in-place transformation, counter-like update) rather than
     a possibly idempotent keyed fill.  With threads=False (history analysis) stores that initialise an object already
@@ -444,6 +470,10 @@ def write_is_definite(model: Model, sw: "SharedWrite", threads: bool = True) -> 
         base = k.split(" (")[0]
         escaped = "(object stored in shared state)" in k
         if escaped and not threads:
+            continue
+        if base == "method:extend" and placeholder_growth(sw):
+            continue
+        if tolerant_eviction(sw, base):
             continue
         if any(base.startswith(d) for d in DEFINITE_KINDS):
             return True
